@@ -14,6 +14,23 @@ MODULES = {"os", "re", "json", "shutil", "time", "portalocker", "pd", "pandas", 
            "defusedxml", "argparse", "logging", "random", "string"}
 
 
+def _has_ite(t):
+    """an if-then-else inside a term makes it inadmissible as a quantifier pattern"""
+    todo, seen = [t], set()
+    while todo:
+        x = todo.pop()
+        if x.get_id() in seen:
+            continue
+        seen.add(x.get_id())
+        if z3.is_app(x):
+            if x.decl().kind() == z3.Z3_OP_ITE:
+                return True
+            todo.extend(x.children())
+        if len(seen) > 2000:
+            return True
+    return False
+
+
 class AccessMixin:
     # ------------------------------------------------------------------ types
     def str_ty(self):
@@ -872,7 +889,7 @@ class AccessMixin:
             c_k, v_k = body_at(k)
             pats = [z3.Select(s.data(r), k)]
             src0 = it.sym if isinstance(it, Cell) else it
-            if isinstance(src0, SV) and src0.ty.name == "List":
+            if isinstance(src0, SV) and src0.ty.name == "List" and not _has_ite(src0.t):
                 # also instantiate from the source side: a fact about member k of the source says something about member k of the map
                 pats.append(z3.Select(sort_of(src0.ty).data(src0.t), k))
             ctx.assume(z3.ForAll([k], z3.Implies(z3.And(0 <= k, k < n_src), z3.Select(s.data(r), k) == ctx.term(v_k, ety)),
